@@ -67,10 +67,33 @@ type TypeSpec interface {
 // For most types, this is the type itself. For Typedefs, it is the root
 // TypeSpec of the Typedef's target.
 func RootTypeSpec(s TypeSpec) TypeSpec {
-	if t, ok := s.(*TypedefSpec); ok {
-		return t.root
+	t, ok := s.(*TypedefSpec)
+	if !ok {
+		return s
 	}
-	return s
+
+	// The root cached on a typedef is computed while that typedef is being
+	// linked. If its target was itself in the middle of being linked at that
+	// time (typedefs that reach each other through a struct), the cached
+	// value is missing. Follow the targets in that case.
+	seen := []*TypedefSpec{t}
+	for t.root == nil {
+		next, ok := t.Target.(*TypedefSpec)
+		if !ok {
+			if _, unresolved := t.Target.(typeSpecReference); unresolved {
+				return nil
+			}
+			return t.Target
+		}
+		for _, v := range seen {
+			if v == next {
+				return nil // typedef cycle; reported by the cycle check
+			}
+		}
+		seen = append(seen, next)
+		t = next
+	}
+	return t.root
 }
 
 // nativeThriftType is the common parent for all TypeSpecs that are native
